@@ -254,11 +254,11 @@ func panicKey(r interface{}, stack string) string {
 // Go starts f as a new task (child of the calling task).
 func Go(site string, f func()) {
 	m := CurMode()
-	if m == Off {
+	if m == Off && curWorld.Load() == nil {
 		go f()
 		return
 	}
-	if m == FreeMode {
+	if m == FreeMode || m == Off {
 		w := curWorld.Load()
 		go func() {
 			defer func() {
@@ -268,7 +268,9 @@ func Go(site string, f func()) {
 					w.Fail("PANIC/"+panicKey(r, string(buf)), fmt.Sprintf("panic in goroutine (%s): %v\n%s", site, r, buf))
 				}
 			}()
-			perturbFree()
+			if m == FreeMode {
+				perturbFree()
+			}
 			f()
 		}()
 		return
@@ -309,10 +311,10 @@ func Go(site string, f func()) {
 // when the timer is armed.
 func AfterFunc(site string, d time.Duration, f func()) *time.Timer {
 	m := CurMode()
-	if m == Off {
+	if m == Off && curWorld.Load() == nil {
 		return time.AfterFunc(d, f)
 	}
-	if m == FreeMode {
+	if m == FreeMode || m == Off {
 		w := curWorld.Load()
 		return time.AfterFunc(d, func() {
 			defer func() {
@@ -1060,7 +1062,7 @@ func (e *Event) IsSet() bool {
 
 func (e *Event) Set() {
 	w := e.w
-	if CurMode() == FreeMode {
+	if CurMode() != BatonMode {
 		w.mu.Lock()
 		e.set = true
 		w.mu.Unlock()
@@ -1081,6 +1083,18 @@ func (e *Event) Set() {
 // timeout). Returns whether the event is set.
 func (e *Event) Wait(d time.Duration) bool {
 	w := e.w
+	if CurMode() == Off {
+		deadline := time.Now().Add(d)
+		for {
+			if e.IsSet() {
+				return true
+			}
+			if d > 0 && !time.Now().Before(deadline) {
+				return false
+			}
+			time.Sleep(200 * time.Microsecond)
+		}
+	}
 	if CurMode() == FreeMode {
 		deadline := time.Now().Add(d)
 		for {
@@ -1160,6 +1174,13 @@ func SetFreeWorld(w *World) {
 	w.start = time.Now()
 	curWorld.Store(w)
 	mode.Store(int32(FreeMode))
+}
+
+// SetRealWorld: engine R - no bubble, wall clock, shims pass through.
+func SetRealWorld(w *World) {
+	w.start = time.Now()
+	curWorld.Store(w)
+	mode.Store(int32(Off))
 }
 
 func ClearWorld(w *World) {
